@@ -108,7 +108,7 @@ def mk_cm(rev):
         defines={'CM_REVERSE': 1 if rev else 0},
         variants=[{'NMAX': 3, 'ZMAX': 4}],
         thorough_variants=[{'NMAX': 4, 'ZMAX': 5}],
-        bound_text='all square matrices with 1 <= n <= 3 and nnz <= 4 (thorough: n <= 4, nnz <= 5; measured: 54 s / 3.5 min of SAT time, '
+        bound_text='all square matrices with 1 <= n <= 3 and nnz <= 4 (thorough: n <= 4, nnz <= 5; measured: ~70 s / ~4 min of SAT time, '
                    'n <= 4 with nnz <= 8 is out of reach), pattern fully symbolic',
         assumptions=A_DIRECT, replay='direct', timeout=1500, witness=wit('A'),
         not_decided=['bandwidth / profile reduction quality of the ordering (not part of the property)'],
@@ -157,7 +157,7 @@ CTOR_CUT = Cut(
         IdxRule(r'A\.col|A\.val', 'A.ptr[A.nrows]', '+'),
     ] + sky_idx([IdxRule(r'invperm', 'invperm_n', '+')]))
 
-SKY_HEAD = '#define MODEL_UF 1\n#define CXC_UF_T unsigned short\n#define PERM_T int\n' + BOUNDED_PRELUDE + DIRECT_PRELUDE + SKYLINE_PRELUDE
+SKY_HEAD = '#define MODEL_UF 1\n#define CXC_UF_T unsigned short\n#define PERM_T int\n#define CXC_IDX_STOP 1\n' + BOUNDED_PRELUDE + DIRECT_PRELUDE + SKYLINE_PRELUDE
 
 SKY_FUNCS = r'''
 /* void skyline_lu::factorize()  (private member) */
